@@ -38,8 +38,54 @@ def _run(cmd, timeout):
         return 'unknown', 'hard timeout (process killed)', time.time() - t
 
 
+def lambda_lifted(hyps, goal):
+    """An equisatisfiable form of the query without lambda terms: every lambda array `(lambda j. t[j])` is replaced by a fresh array
+    constant A together with its defining axiom `forall j. A[j] = t[j]` (by extensionality A is that array).  z3 refutes queries in
+    which uninterpreted functions are applied to lambda arrays badly (minutes, then `unknown`); the lifted form is answered at once."""
+    fs = list(hyps) + [z3.Not(goal)]
+    lams = {}
+    seen = set()
+    todo = list(fs)
+    while todo:
+        t = todo.pop()
+        if t.get_id() in seen: continue
+        seen.add(t.get_id())
+        if z3.is_quantifier(t):
+            if t.is_lambda():
+                lams[t.get_id()] = t        # outermost lambdas only: a nested one is part of the defining axiom
+                continue
+            todo.append(t.body()); continue
+        if z3.is_app(t): todo.extend(t.children())
+    closed = [(k, l) for k, l in lams.items() if l.num_vars() == 1 and not _has_free_vars(l)]
+    if not closed: return None
+    subs, links = [], []
+    for i, (k, l) in enumerate(closed):
+        A = z3.Const(f'lam!lift{i}', l.sort())
+        j = z3.Const(f'j!lift{i}', l.var_sort(0))
+        subs.append((l, A)); links.append(z3.ForAll([j], A[j] == z3.substitute_vars(l.body(), j)))
+    s = z3.Solver()
+    for f in fs: s.add(z3.substitute(f, *subs))
+    for f in links: s.add(f)
+    return s.to_smt2()
+
+
+def _has_free_vars(t):
+    """does the (lambda) term mention de Bruijn variables bound outside it?  (memoised over the term DAG)"""
+    memo = {}
+    def go(x, depth):
+        key = (x.get_id(), depth)
+        if key in memo: return memo[key]
+        if z3.is_var(x): r = z3.get_var_index(x) >= depth
+        elif z3.is_quantifier(x): r = go(x.body(), depth + x.num_vars())
+        elif z3.is_app(x): r = any(go(c, depth) for c in x.children())
+        else: r = False
+        memo[key] = r
+        return r
+    return go(t.body(), t.num_vars())
+
+
 def solve_one(args):
-    idx, text, workdir, use_cvc5, tmo = args
+    idx, text, workdir, use_cvc5, tmo = args[:5]
     path = os.path.join(workdir, f'ob{idx}.smt2')
     with open(path, 'w') as f: f.write(text)
     res, out, dt = _run([Z3_BIN, '-smt2', f'-T:{tmo}', path], tmo + 5)
@@ -80,16 +126,41 @@ def discharge(obligations, use_cvc5=True):
     results = [None] * len(obligations)
     with tempfile.TemporaryDirectory(prefix='pyvc_') as wd:
         jobs = []
+        has_lambda = set()
         for i, o in enumerate(obligations):
             g = z3.simplify(o.goal)
             if z3.is_true(g):
                 results[i] = dict(result='unsat', solver='simplifier', ms=0, out=''); continue
             canary = o.kind == 'canary'      # vacuity guards: only `unsat` matters, a short budget is enough
-            jobs.append((i, to_smt2(o.hyps, o.goal), wd, use_cvc5 and not canary, CANARY_TIMEOUT_S if canary else Z3_TIMEOUT_S))
+            text = to_smt2(o.hyps, o.goal)
+            if not canary and '(lambda ' in text: has_lambda.add(i)
+            jobs.append((i, text, wd, use_cvc5 and not canary, CANARY_TIMEOUT_S if canary else Z3_TIMEOUT_S))
         with cf.ThreadPoolExecutor(max_workers=WORKERS) as pool:
             for idx, res, solver, ms, out in pool.map(solve_one, jobs):
                 results[idx] = dict(result=res, solver=solver, ms=ms, out=out)
+        # second pass for what is still open and contains lambda arrays: the equisatisfiable lambda-lifted query
+        again = []
+        for i in sorted(has_lambda):
+            if results[i]['result'] != 'unknown': continue
+            try: lifted = lambda_lifted(obligations[i].hyps, obligations[i].goal)
+            except z3.Z3Exception: lifted = None
+            if lifted is not None: again.append((i, lifted, wd))
+        with cf.ThreadPoolExecutor(max_workers=WORKERS) as pool:
+            for idx, res, out, ms in pool.map(_solve_lifted, again):
+                results[idx]['ms'] += ms
+                if res in ('sat', 'unsat'):      # equisatisfiable query, same solver: both answers count
+                    results[idx].update(result=res, solver='z3-5.1 (lambda-lifted)', out=out)
     return results
+
+
+def _solve_lifted(args):
+    idx, text, workdir = args
+    path = os.path.join(workdir, f'ob{idx}.lifted.smt2')
+    with open(path, 'w') as f: f.write(text)
+    res, out, dt = _run([Z3_BIN, '-smt2', f'-T:{Z3_TIMEOUT_S}', path], Z3_TIMEOUT_S + 5)
+    try: os.unlink(path)
+    except OSError: pass
+    return idx, res, out[:400], round(dt * 1000)
 
 
 def rerun_with_seeds(obligations, results, seeds=(1, 2)):
